@@ -93,6 +93,7 @@ type supplied struct {
 	form  string // long | short | bare | plain
 	varN  string
 	destr []string
+	ws    int
 	env   *menv    // scope where the include tag is written
 	sc    *slotCtx // slot context where the include tag is written
 }
@@ -144,8 +145,9 @@ type mctx struct {
 type model struct {
 	c       Case
 	st      *stats
-	content []*hx.N         // rendered page, while the layout is evaluated
-	seen    map[string]bool // instance/slot/prop that had a value in an earlier use
+	content []*hx.N              // rendered page, while the layout is evaluated
+	inherit map[string]*supplied // page-level slot templates, while the layout is evaluated
+	seen    map[string]bool      // instance/slot/prop that had a value in an earlier use
 	insts   int
 }
 
@@ -157,6 +159,9 @@ func expect(c Case) ([]*hx.N, *stats, error) {
 		data[k] = v.Go()
 	}
 	out, err := m.eval(c.Page, mctx{env: &menv{vars: data}})
+	if err == nil && len(c.Layout) == 0 && len(c.Hand) > 0 {
+		err = fmt.Errorf("page-level slot templates without a layout (not part of this check)")
+	}
 	if err != nil || len(c.Layout) == 0 {
 		return out, m.st, err
 	}
@@ -164,6 +169,15 @@ func expect(c Case) ([]*hx.N, *stats, error) {
 	// `content`, and its include tags supply the slots of their own component instances.
 	m.st.add("layout-with-component-instance")
 	m.content = out
+	if len(c.Hand) > 0 {
+		m.inherit = map[string]*supplied{}
+		for _, s := range c.Hand {
+			if s.Form == "bare" || s.Name == "" {
+				return nil, m.st, fmt.Errorf("page-level slot template without a name")
+			}
+			m.inherit[s.Name] = &supplied{kids: s.Kids, form: s.Form, varN: s.Var, destr: s.Destr, ws: s.WS, env: &menv{vars: data}}
+		}
+	}
 	out, err = m.eval(c.Layout, mctx{env: &menv{vars: data}, inLayout: true})
 	return out, m.st, err
 }
@@ -382,6 +396,12 @@ func (m *model) evalSlot(n Node, cx mctx) ([]*hx.N, error) {
 	if cx.sc != nil {
 		sup = cx.sc.by[name]
 	}
+	if sup == nil && cx.inLayout && cx.sc == nil && m.inherit[name] != nil {
+		sup = m.inherit[name]
+		m.st.add("layout-handover:slot-in-the-layout-file")
+	} else if sup != nil && m.inherit[name] == sup {
+		m.st.add("layout-handover:slot-in-a-component-of-the-layout")
+	}
 	if sup == nil {
 		switch {
 		case len(n.Kids) > 0:
@@ -430,6 +450,7 @@ func (m *model) evalSlot(n Node, cx mctx) ([]*hx.N, error) {
 			vars[d] = v
 		}
 		m.st.add("scoped:destructured")
+		m.st.add(fmt.Sprintf("pattern-layout=%d", sup.ws%patternStyles))
 	}
 	if len(vars) > 0 && usesAny(sup.kids, vars) {
 		m.st.add("scoped-prop-read")
@@ -519,13 +540,19 @@ func (m *model) evalInc(n Node, cx mctx) ([]*hx.N, error) {
 		if s.Var != "" && len(s.Destr) > 0 {
 			return nil, fmt.Errorf("supply with both a variable and destructuring")
 		}
-		sc.by[s.Name] = &supplied{kids: s.Kids, form: s.Form, varN: s.Var, destr: s.Destr, env: cx.env, sc: cx.sc}
+		sc.by[s.Name] = &supplied{kids: s.Kids, form: s.Form, varN: s.Var, destr: s.Destr, ws: s.WS, env: cx.env, sc: cx.sc}
 	}
 	if len(n.Kids) > 0 {
 		if _, dup := sc.by[""]; dup {
 			return nil, fmt.Errorf("plain children next to a default slot template (not part of this check)")
 		}
 		sc.by[""] = &supplied{kids: n.Kids, form: "plain", env: cx.env, sc: cx.sc}
+	}
+	for name, h := range m.inherit {
+		// rendering the layout: names this include tag leaves unsupplied come from the page
+		if _, own := sc.by[name]; !own {
+			sc.by[name] = h
+		}
 	}
 	m.st.add("instances")
 	if m.c.Short {
